@@ -14,9 +14,9 @@ pub const LEXEMES: &[&str] = &[
     "*", "/", // symbols
     "if", "else", "while", "array", "of", "proc", "ref", "type", "var", // keywords
     "a", "i", "iff", "if_", "if1", "_x", "x1", "ofa", "Var", // identifiers near keywords
-    "0", "7", "2147483647", "4294967296", // decimal
+    "0", "7", "2147483647", "4294967296", "00000000001", "04294967295", // decimal (the last two: leading zeros, more than ten digits)
     "0x1F", "0xab", "0xFFFFFFFF", "0x100000000", "0x", // hexadecimal (last one malformed)
-    "'a'", "'\\n'", "' '", "'", // character literals (last one malformed)
+    "'a'", "'\\n'", "' '", "'\\'", "'", // character literals (a backslash is an ordinary character; last one malformed)
     "// c\n", "// d", "//", // comments: terminated, at end of text, empty
 ];
 pub const SEPARATORS: &[&str] = &["", " ", "\t", "\n", "\r\n"];
